@@ -274,6 +274,52 @@ static void run_cfg (int ci)
 	vf_note ("%s: alphabet=%d states=%ld transitions=%ld maxdepth=%ld", tag, NOPS, s.states, s.transitions, s.maxdepth_seen);
 	{ char nm[64]; snprintf (nm, sizeof nm, "states:%dx%d,%dx%d", CFG.ra, CFG.ca, CFG.rb, CFG.cb); vf_outcome (nm, s.states); }
 }
+
+/* ------------------------------------------------------------------ conversions on wide matrices (more than one 32-bit word per dense row)
+ * every subset of the boundary cells {rows 0,1} x {cols 0,31,32,33,63,64,65} of a 2x66 matrix: build it sparse,
+ * convert to dense, back to sparse (into the same and into a fresh matrix), compare every cell and every traversal */
+static const int WC[7] = {0, 31, 32, 33, 63, 64, 65};
+static void conv_item (long it, void *arg)
+{
+	long lo = it * 1024, hi = lo + 1024, x;
+	(void) arg;
+	vf_slot_set_prop ("C17");
+	for (x = lo; x < hi; x++) {
+		of_mod2sparse *m = of_mod2sparse_allocate (2, 66), *m2 = of_mod2sparse_allocate (2, 66);
+		of_mod2dense *d = of_mod2dense_allocate (2, 66);
+		int i, j, b, pass;
+		snprintf (g_desc, sizeof g_desc, "convwide cells=0x%lx", x); memcpy (vf_slot (), g_desc, sizeof g_desc);
+		for (b = 0; b < 14; b++) if ((x >> b) & 1) of_mod2sparse_insert (m, (UINT32) (b / 7), (UINT32) WC[b % 7]);
+		of_mod2sparse_to_dense (m, d);
+		for (i = 0; i < 2; i++) for (j = 0; j < 66; j++) {
+			int want = 0;
+			for (b = 0; b < 14; b++) if (((x >> b) & 1) && b / 7 == i && WC[b % 7] == j) want = 1;
+			if ((of_mod2dense_get (d, (UINT32) i, (UINT32) j) != 0) != want) { sviol ("after=sparse_to_dense|kind=cell-wrong|wide"); i = 9; break; }
+		}
+		of_mod2dense_to_sparse (d, m);		/* clears m, re-inserts */
+		of_mod2dense_to_sparse (d, m2);
+		for (pass = 0; pass < 2; pass++) {
+			of_mod2sparse *q = pass ? m2 : m;
+			int bad = 0;
+			for (i = 0; i < 2 && !bad; i++) {
+				of_mod2entry *e; int prev = -1, cnt = 0, want = 0;
+				for (b = 0; b < 14; b++) if (((x >> b) & 1) && b / 7 == i) want++;
+				for (e = of_mod2sparse_first_in_row (q, i); !of_mod2sparse_at_end_row (e); e = of_mod2sparse_next_in_row (e)) { if (e->col <= prev || ++cnt > 20) { bad = 1; break; } prev = e->col; }
+				if (cnt != want) bad = 1;
+				for (j = 0; j < 66 && !bad; j++) {
+					int w = 0;
+					for (b = 0; b < 14; b++) if (((x >> b) & 1) && b / 7 == i && WC[b % 7] == j) w = 1;
+					if ((of_mod2sparse_find (q, (UINT32) i, (UINT32) j) != NULL) != w) bad = 1;
+				}
+			}
+			if (bad) { sviol (pass ? "after=dense_to_sparse|kind=entries-differ|wide|fresh-destination" : "after=dense_to_sparse|kind=entries-differ|wide|same-destination"); break; }
+		}
+		of_mod2dense_free (d);
+		of_mod2sparse_free (m); of_free (m); of_mod2sparse_free (m2); of_free (m2);
+	}
+	vf_stat_add (st_trans, 3 * 1024); vf_stat_add (st_exec, 1024); vf_stat_add (st_states, 1024);
+}
+
 static void item (long it, void *arg) { (void) arg; vf_slot_set_prop ("C17"); run_cfg ((int) it); }
 
 static void item_replay (long it, void *arg)
@@ -283,6 +329,7 @@ static void item_replay (long it, void *arg)
 	(void) it; (void) arg;
 	vf_slot_set_prop ("C17");
 	memset (&h, 0, sizeof h); memset (&s, 0, sizeof s);
+	if (!strncmp (cs, "convwide cells=0x", 17)) { long x = strtol (cs + 17, NULL, 16); conv_item (x / 1024, NULL); return; }
 	if (sscanf (cs, "dims=%dx%d,%dx%d", &CFG.ra, &CFG.ca, &CFG.rb, &CFG.cb) != 4) return;
 	build_ops (&CFG);
 	p = strstr (cs, "ops=");
@@ -312,6 +359,7 @@ int main (int argc, char **argv)
 		addcfg (2, 3, 3, 3, 7, 1500000); addcfg (1, 2, 1, 2, 36, 100000); addcfg (3, 1, 3, 2, 36, 3000000); addcfg (1, 4, 1, 4, 36, 3000000);
 		addcfg (3, 3, 3, 3, 6, 1500000); addcfg (3, 4, 4, 4, 5, 1000000); addcfg (2, 3, 2, 3, 10, 2000000); addcfg (2, 4, 3, 4, 6, 1500000);
 	}
+	vf_pool_run (16, conv_item, NULL, 0);	/* 2^14 boundary-cell subsets of a 2x66 matrix */
 	vf_pool_run (NCFG, item, NULL, 0);
 	vf_stat_add (st_dn, vf_stat_get (st_states));
 	vf_sample ("dims=2x2,2x3: alphabet = ins/del per cell, clear, roundtrip, realloc, copy, copyrows(4 vectors), copycols(8), *_opt into empty destination, copy_filled (3 maps), both directions where dimensions allow");
